@@ -26,7 +26,7 @@ import threading
 from . import common as C
 
 MODULE = "AcqVerif.Props.C17"
-DRIVERS = ["acq_simcam"]
+DRIVERS = ["acq_simcam", "acq_simconc"]
 THEOREMS = [
     "AcqVerif.C17.C17_reported_shape_is_clamped_request",
     "AcqVerif.C17.C17_reported_shape_invariant",
@@ -572,6 +572,52 @@ def corpus_cases():
     return cases
 
 
+def threads_part(ctx, thorough):
+    """memory safety while the streamer thread is alive: the real camera on the deterministic scheduler (C18's harness, ASan), kinds that
+    really render (random, sin; empty with binning 2), the streamer parked at every one of its synchronisation points while the caller
+    stops, restarts, re-arms the trigger — or closes the camera without stopping it first (the driver's close stops the streamer itself;
+    acquire_configure reaches it when a live stream is given another camera).  Oracle: sanitizer reports and scheduler verdicts only
+    (the frame protocol is C18's subject)."""
+    from . import c18
+    keep = dict(ctx.cov)
+    exe, drv = c18.build(ctx)
+    ctx.cov.clear(); ctx.cov.update(keep)
+    if not exe:
+        return
+    rng = ctx.rng
+    scripts = ["start,close", "start,get,close", "on,start,trig,close", "on,start,close", "start,stop,start,close", "start,get,get,stop,close",
+               "on,start,trig,get,off,close", "close", "start,stop,close", "start,get,stop,start,get,close"]
+    cases, meta = [], []
+    n = 0
+    for a in scripts:
+        for kind, binning in (("random", 1), ("sin", 1), ("empty", 2), ("random", 2)):
+            nsched = 24 if thorough else 6
+            for k in range(nsched):
+                # schedule prefixes: k = 0 fair; otherwise random choices among caller (0) and streamers (1, 2, ..); entries naming a thread
+                # that is not enabled fall back to the fair policy
+                sched = [] if k == 0 else [rng.choice([0, 0, 1, 1, 1, 2]) for _ in range(rng.choice([6, 12, 24, 40]))]
+                cid = "t%d" % n; n += 1
+                cases.append("case %s A=%s B=- sched=%s policy=fair dfs=0 kind=%s bin=%d limit=6000" % (cid, a, ",".join(map(str, sched)) if sched else "-", kind, binning))
+                meta.append((a, kind, binning))
+    runs = c18.run_impl(exe, cases, timeout=300)
+    bad = 0
+    closes = 0
+    for line, r in zip(cases, runs):
+        closes += sum(1 for l in r.lines if l.startswith("r A close ok"))
+        if r.terminal and not r.terminal.startswith(("DEADLOCK", "deadlock")) or (r.terminal and "CRASH" in r.terminal):
+            pass
+        if r.terminal and ("CRASH" in r.terminal or "MISUSE" in r.terminal.upper() or "STEP" in r.terminal.upper() or "HANG" in r.terminal.upper() or "DEADLOCK" in r.terminal.upper()):
+            bad += 1
+            m = re.search(r"ERROR: \w+Sanitizer[^\n]*(?:\n\s+#\d[^\n]*){0,4}", r.terminal)
+            what = m.group(0).replace("\n", " | ") if m else r.terminal
+            kindsig = "crash" if "CRASH" in r.terminal else r.terminal.split()[0].lower()
+            ctx.violation("crash", "h_simcam_conc:close-or-stop-under-threads:%s" % kindsig,
+                          "real simulated camera with a live streamer thread: %s  [%s]" % (str(what)[:600], line),
+                          {"harness": "h_simcam_conc", "case": line, "schedule": r.schedule})
+    ctx.cov["threads_part"] = {"cases": len(cases), "closes_returned": closes, "bad": bad,
+                               "rule": "scripts %s x kinds random/sin/empty+bin2/random+bin2 x schedule prefixes (fair + random); oracle = ASan/UBSan report, DEADLOCK/HANG/STEP-LIMIT/MISUSE of the scheduler" % scripts}
+
+
 def run(ctx):
     thorough = ctx.tier == "thorough"
     regenerate(ctx)
@@ -622,6 +668,7 @@ def run(ctx):
                        "bin2 / im_fill_rand / im_fill_pattern on blocks of exactly the predicted extent (clean expected, also at base offsets 16 and `align`) "
                        "and one byte less (ASan report expected). A camera case is non-trivial if it delivers a frame through a binning cascade, or clamps, "
                        "re-sizes or rejects; distinct = distinct (variant, set of model branch labels)." % (variants, SHAPES, "; 8192x8192 full resolution once per sample type" if thorough else ""))
+    threads_part(ctx, thorough)
     ctx.cov["exhaustive"] = False
     ctx.cov["model_branch_hits"] = dict(sorted(stats["branches"].items()))
     ctx.cov["tight_buffer_runs"] = stats["tight"]
@@ -642,6 +689,19 @@ def run(ctx):
 def replay(ctx, path):
     obj = json.load(open(path))
     rp = obj.get("replay") or {}
+    if rp.get("harness") == "h_simcam_conc":
+        from . import c18
+        exe, drv = c18.build(ctx)
+        if not exe:
+            print("harness does not build"); return 1
+        runs = c18.run_impl(exe, [rp["case"]], timeout=120)
+        for r in runs:
+            print(r.terminal or "ended normally")
+            if r.terminal:
+                print("VIOLATION property=C17 replay=%s" % path)
+                return 1
+        print("not reproduced on the current tree")
+        return 0
     if not rp.get("script"):
         print("replay file has no script (proof/correspondence-only finding)")
         return 1
